@@ -148,7 +148,7 @@ impl Prop for C15 {
                 check_incomplete(Grammar::Lib, &f.text, st, &f.name, JUNK[i % JUNK.len()])?;
             }
             "svgen" => {
-                let p = svgen::generate(t, &svgen::Cfg::default());
+                let p = svgen::generate_mixed(t, &svgen::Cfg::default());
                 let mut f = Feats::default();
                 let text = p.render(t, &TriviaCfg::full(), &mut f);
                 let j = t.pick_str(JUNK);
@@ -158,7 +158,7 @@ impl Prop for C15 {
                 let base = if t.flip() {
                     t.pick(&ctx.corpus.sv).text.clone()
                 } else {
-                    let p = svgen::generate(t, &svgen::Cfg::default());
+                    let p = svgen::generate_mixed(t, &svgen::Cfg::default());
                     p.render_plain()
                 };
                 let m = mutate::mutate_text(&base, t);
